@@ -178,6 +178,7 @@ func (m *TlvModel) GenReadFrom(buf *bytes.Buffer) error {
 				l := enc.TLNum(0)
 				{{call .GenTlvNumberDecode "typ"}}
 				{{call .GenTlvNumberDecode "l"}}
+				{{call .GenTlvLengthCheck "l"}}
 
 				err = nil
 
@@ -246,10 +247,12 @@ func (m *TlvModel) GenReadFrom(buf *bytes.Buffer) error {
 	`)).Execute(buf, struct {
 		Model              *TlvModel
 		GenTlvNumberDecode func(string) (string, error)
+		GenTlvLengthCheck  func(string) (string, error)
 		IsCritical         string
 	}{
 		Model:              m,
 		GenTlvNumberDecode: GenTlvNumberDecode,
+		GenTlvLengthCheck:  GenTlvLengthCheck,
 		IsCritical:         `((typ <= 31) || ((typ & 1) == 1))`,
 	})
 }
